@@ -116,7 +116,7 @@ func (rt *runtime) cmplEvaluateNodeStatement(node nodeStatement) Value {
 }
 
 func (rt *runtime) cmplEvaluateNodeStatementList(list []nodeStatement) Value {
-	var result Value
+	result := emptyValue
 	for _, node := range list {
 		value := rt.cmplEvaluateNodeStatement(node)
 		switch value.kind {
